@@ -13,8 +13,8 @@ CLAIMED = {
          "4 C15", "Lean 4 proof (induction over op lists) + differential correspondence"),
  'C14': ("Lean refinement theorem (refines_abstract_map: for every finite op history the heap-level PairTable machine - deepcopy = fresh cell, "
          "in-place change = write through a reference, caller objects are cells - simulates the abstract symmetric map), with corollaries read_symmetric, "
-         "broadcast_isolated, caller_mutation_invisible, check_iff_unset, iterpairs_exact/sorted/nodup and the ValueTable map laws; the same model runs in the "
-         "driver and is compared with real PairTables/ValueTables after every op of random histories incl. identity (`is`) probes.",
+         "broadcast_isolated, caller_mutation_invisible, setUnset_keeps_assigned (an assigned pair keeps referring to the very same object after setUnset), check_iff_unset, iterpairs_exact/sorted/nodup and the ValueTable map laws; the same model runs in the "
+         "driver and is compared with real PairTables/ValueTables after every op of random histories incl. identity (`is`) probes, with string, integer (0 among them) and mixed type labels, list / tuple / array / one-shot-iterator keys; non-symmetric tables are probed for apply(inplace=False) isolation.",
          "4 C14", "Lean 4 proof (heap-level refinement by induction over op lists) + differential correspondence"),
  'C13': ("Lean theorems about the MatrixArray model: binop_pointwise/binop_ok_iff (every operator x operand kind incl. per-column vectors, element for element, incl. length-1 broadcast), binop_short_left (a length-1 LEFT operand out of place is stretched to the right operand's length; in place it is refused), "
          "dot_is_matrix_mul/dot_is_Matrix_mul (Mathlib Matrix product per grid point), invert_spec (identity, under the external inverse's specification), "
@@ -114,7 +114,7 @@ CLAIMED = {
          "omega = omega(k) rho_site on the k grid, symmetric, Fourier). Object level (Model/SysHeap.lean: potentials/closures are cells of an explicit store, PairTable assignment and deepcopy(sys) allocate, "
          "PRISM.__init__ writes only its copies): step_isolated, later_edits_do_not_reach_prism and reachable_inv (induction over ARBITRARY operation sequences: no cell owned by an existing PRISM object ever "
          "changes, System references and PRISM-owned cells stay disjoint), snapshot_wiring_values (with C15's invariants: closure sigma = (d_a+d_b)/2, omega scaled by rho_a / rho_a+rho_b), create_does_not_write_system (the System's meaning absSys is unchanged by createPRISM), sweep_equals_fresh (the PRISM created after any "
-         "history is createPRISM of the System's current meaning), create_refused_iff, create_cells_agree and prism_objects_always_agree (every PRISM object, at every moment of every history, holds in its private potential / closure objects exactly what its value-level state says, so what an existing object computes cannot change through later System operations), step_abs and history_refines_spec (REFINEMENT: under the abstraction absSys every store-level history is the corresponding history of the plain value-level System, for arbitrary operation lists), and the negation witness aliased_create_changes_system for the variant that iterates the caller's table. The store model "
+         "history is createPRISM of the System's current meaning), create_refused_iff, explicit_sigma_kept (an explicitly given sigma, also 0, is used as it is), create_cells_agree and prism_objects_always_agree (every PRISM object, at every moment of every history, holds in its private potential / closure objects exactly what its value-level state says, so what an existing object computes cannot change through later System operations), step_abs and history_refines_spec (REFINEMENT: under the abstraction absSys every store-level history is the corresponding history of the plain value-level System, for arbitrary operation lists), and the negation witness aliased_create_changes_system for the variant that iterates the caller's table. The store model "
          "runs in the driver and is compared after EVERY operation of random edit/create/solve histories with the hidden object state of the real System and of every PRISM object created so far (histories include in-place edits of the System's Domain object, one-statement group assignments, setUnset, ONE object assigned pair by pair, evaluations of the System's own omega objects by the user, several PRISM objects per System); every existing PRISM object must also evaluate its self-consistency function bit-identically after every later System operation; the wiring statement is also evaluated independently on every new PRISM object.",
          "4 C16", "Lean 4 proof (decision logic + object-store invariant by induction over operation histories) + differential correspondence"),
  'C17': ("Lean theorems at formula level (Model/UnitConv.lean): kelvin_formula/linear, celsius_offset (K - 273.15) and celsius_affine, inv_angstrom_formula/linear, inv_nanometer_is_ten_inv_angstrom, "
